@@ -717,3 +717,88 @@ func flowsIntoCall(v ssa.Value, seen map[ssa.Value]bool, depth int) bool {
 	}
 	return false
 }
+
+// R-MODE-UNIFORM (C10, C16): modes are uniform within a type except across shifts.
+func init() {
+	register(&Rule{Name: "R-MODE-UNIFORM", Min: 10,
+		Doc: "in checkTypeModalities every non-shift constructor succeeds only if its own mode equals the expected mode, and hands exactly that expected mode down to every child (only shifts change the expected mode, to their source mode)",
+		Run: runModeUniform})
+}
+
+func runModeUniform(p *Program, r *RuleResult) {
+	shifts := map[*types.Named]bool{}
+	for _, T := range p.shiftTypes() {
+		shifts[T] = true
+	}
+	for _, T := range p.sessionTypeImplementers() {
+		if shifts[T] {
+			continue
+		}
+		fn := p.Method(T, "checkTypeModalities")
+		view := p.View(fn)
+		recv := fn.Params[0].Name()
+		var modeParam *ssa.Parameter
+		for _, prm := range fn.Params[1:] {
+			if isModalityType(prm.Type()) {
+				modeParam = prm
+			}
+		}
+		if modeParam == nil {
+			anchorFail("mode parameter of %s", fn)
+		}
+		var modeField string
+		for _, f := range structFields(T) {
+			if isModalityType(f.Type()) {
+				modeField = f.Name()
+			}
+		}
+		// (1) own mode == expected mode on every success path
+		bad := ""
+		for _, b := range view.Blocks() {
+			ins := view.Instrs(b)
+			ret, ok := ins[len(ins)-1].(*ssa.Return)
+			if !ok || isErrorValue(ret.Results[0], view, b, map[ssa.Value]bool{}) {
+				continue
+			}
+			okEq := false
+			for f := range view.FactsAt(b) {
+				c, isCall := f.v.(*ssa.Call)
+				if isCall && f.k == factTrue && c.Common().IsInvoke() && c.Common().Method.Name() == "Equals" &&
+					accessPath(c.Common().Value) == recv+"."+modeField && origin(c.Common().Args[0]) == ssa.Value(modeParam) {
+					okEq = true
+				}
+			}
+			if !okEq {
+				bad = fmt.Sprintf("the success return at %s is not dominated by %s.%s.Equals(%s)", p.instrPos(ret), recv, modeField, modeParam.Name())
+			}
+		}
+		if bad != "" {
+			r.add(fnName(fn), "own-mode-equals-expected", Violated, p.pos(fn.Pos()), bad)
+		} else {
+			r.add(fnName(fn), "own-mode-equals-expected", Holds, p.pos(fn.Pos()), "")
+		}
+		// (2) children are checked against the same expected mode
+		n := 0
+		for _, c := range p.callsIn(fn) {
+			com := c.Common()
+			if !com.IsInvoke() || com.Method.Name() != fn.Name() {
+				continue
+			}
+			n++
+			child := lastSeg(strings.TrimSuffix(accessPath(com.Value), ".SessionType"))
+			child = strings.TrimSuffix(child, "[]")
+			construct := fmt.Sprintf("child-mode:%s#%d", child, n)
+			var arg ssa.Value
+			for _, a := range com.Args {
+				if isModalityType(a.Type()) {
+					arg = a
+				}
+			}
+			if arg != nil && origin(arg) == ssa.Value(modeParam) {
+				r.add(fnName(fn), construct, Holds, p.instrPos(c), "")
+			} else {
+				r.add(fnName(fn), construct, Violated, p.instrPos(c), fmt.Sprintf("child %s is checked against %s instead of the expected mode of the enclosing type: a component of a foreign mode is admitted without a shift", child, describeVal(arg)))
+			}
+		}
+	}
+}
